@@ -350,7 +350,7 @@ def _search(gen):
 # gen/c2coq.py regenerated from the current src/varintChainedSimple.c (coq/gen/Src_csimple.v, loops
 # rendered with c_while and 64 iterations of fuel): a test of the translator, on admissible inputs only.
 
-SRC_TRUSTED = ["gen/c2coq.py (C-to-Gallina translator: clang 14 typed AST -> coq/gen/Src_csimple.v; supported subset and "
+SRC_TRUSTED = ["gen/c2coq.py (C-to-Gallina translator: clang 14 typed AST -> coq/gen/Src_csimple.v, Src_chained.v; supported subset and "
                "assumptions in its docstring) and coq/theories/CSem.v; validated per run only by executing the generated "
                "functions against the C (src_csimple_* cases)"]
 SRC_ASSUME = ["Properties_*_src.v are about src_<f>, the rendering of the CURRENT source text regenerated on every run "
@@ -419,14 +419,79 @@ SRC_ORACLES = {"src_csimple_enc": _o_src_enc, "src_csimple_enc32": _o_src_enc, "
                "src_csimple_dec32f": _o_src_dec(U32)}
 
 
+def generate_src_chained(rng, tier):
+    """the regenerated functions of src/varintChained.c (coq/gen/Src_chained.v) against the C"""
+    pool = _pool()
+    n = _rand_n(tier, 600, 20000)
+    for x in pool + [rand_u64(rng) for _ in range(n)]:
+        enc = ref_chained(x)
+        L = len(enc) if rng.random() < 0.5 else rng.randint(len(enc), 12)
+        yield "src_chained_put %d %s" % (x, hexs(_rbuf(rng, L)))
+        yield "src_chained_len %d" % x
+        yield "src_chained_get %s %d" % (hexs(enc), rand_u64(rng))
+        yield "src_chained_get32 %s %d" % (hexs(enc), rand_u64(rng) & U32)
+        if len(enc) >= 2:
+            yield "src_chained_get32fn %s %d" % (hexs(enc), rand_u64(rng) & U32)
+        if x <= U32:
+            yield "src_chained_put32 %d %s" % (x, hexs(_rbuf(rng, rng.randint(len(enc), 10))))
+    for bs in _malformed(rng, n // 2):
+        yield "src_chained_get %s %d" % (hexs(bs), rand_u64(rng))
+        yield "src_chained_get32 %s %d" % (hexs(bs), rand_u64(rng) & U32)
+
+
+def _o_src_chput(args, c):
+    x, buf = int(args[0]), list(bytes.fromhex(args[1][1:]))
+    if "fault" in c:
+        return "fault=%s (access outside the exact-size buffer)" % c["fault"]
+    if c.get("buf") in ("lo", "hi"):
+        return "write outside the destination (%s)" % c["buf"]
+    out, enc = list(bytes.fromhex(c["buf"][1:])), ref_chained(x)
+    if int(c["ret"]) != len(enc) or out[:len(enc)] != enc:
+        return "wrote %s (returned %s), the reference encoding of %d is %s" % (c["buf"], c["ret"], x, hexs(enc))
+    if out[len(enc):] != buf[len(enc):]:
+        return "bytes beyond the %d bytes of the encoding were modified" % len(enc)
+    return None
+
+
+def _o_src_chget(sat):
+    def o(args, c):
+        bs = list(bytes.fromhex(args[0][1:]))
+        if "fault" in c:
+            return "read beyond the varint (fault=%s)" % c["fault"]
+        r = ref_chained_decode(bs)
+        if r is None:
+            return None
+        w, v = r
+        want = v if not sat else (v if v <= U32 else U32)
+        if int(c["ret"]) != w or int(c["v"]) != want:
+            return "decoded (%s,%s), the reference gives (%d,%d)" % (c["ret"], c["v"], w, want)
+        return None
+    return o
+
+
+SRC_ORACLES.update({"src_chained_put": _o_src_chput, "src_chained_put32": _o_src_chput, "src_chained_len": _o_src_len,
+                    "src_chained_get": _o_src_chget(False), "src_chained_get32": _o_src_chget(True),
+                    "src_chained_get32fn": _o_src_chget(True)})
+
+
 def classify_src(case, m):
     api = case.split(" ", 1)[0]
-    return ("src-%s-ret%s" % (api[12:], m.get("ret"))) if api.startswith("src_csimple_") else None
+    if api.startswith("src_csimple_") or api.startswith("src_chained_"):
+        return "%s-ret%s" % (api, m.get("ret"))
+    return None
 
 
 def _gen_c01(rng, tier):
     yield from generate_C01(rng, tier)
     yield from generate_src(random.Random(rng.getrandbits(48)), tier)
+    yield from generate_src_chained(random.Random(rng.getrandbits(48)), tier)
+
+
+def _gen_c04(rng, tier):
+    yield from generate_C04(rng, tier)
+    for c in generate_src_chained(random.Random(rng.getrandbits(48)), tier):
+        if c.startswith("src_chained_put ") or c.startswith("src_chained_len "):
+            yield c
 
 
 def _classify_c01(case, m):
@@ -434,7 +499,8 @@ def _classify_c01(case, m):
 
 
 PARTS = {
-    "C01": dict(coq_props=["Properties_C01_chained", "Properties_C01_csimple_src"], files=FILES, rule=RULE_C01,
+    "C01": dict(coq_props=["Properties_C01_chained", "Properties_C01_csimple_src", "Properties_C01_chained_src"],
+                files=FILES, rule=RULE_C01,
                 generate=_gen_c01,
                 oracles=dict(ORACLES_C01, **SRC_ORACLES), classify=_classify_c01, search=_search(generate_C01),
                 trusted_base=SRC_TRUSTED,
@@ -442,8 +508,9 @@ PARTS = {
                              "(varintChainedGetVarint32 is compiled without its 1-byte case and is only called "
                              "on encodings of 2 bytes and more)"] + SRC_ASSUME,
                 configs_quick=["pinned", "O0"]),
-    "C04": dict(coq_props=["Properties_C04_chained"], files=FILES, rule=RULE_C04, generate=generate_C04,
-                oracles=ORACLES_C04, classify=classify, search=_search(generate_C04),
+    "C04": dict(coq_props=["Properties_C04_chained", "Properties_C04_chained_src"], files=FILES, rule=RULE_C04,
+                generate=_gen_c04, oracles=dict(ORACLES_C04, **SRC_ORACLES), classify=_classify_c01,
+                search=_search(generate_C04), trusted_base=SRC_TRUSTED,
                 assumptions=["canonical = the encoder's output is the shortest byte string the decoder-spec maps "
                              "to the value (the decoders themselves accept non-minimal strings)"],
                 configs_quick=["pinned", "O0"]),
